@@ -213,6 +213,34 @@ def run(ctx):
                             os.unlink(os.path.join(tmpd, f))
         finally:
             tempfile.tempdir = old_tmp
+        # a fault inside the spill itself: a cell that cannot be pickled makes the chunk dump fail part-way;
+        # whatever was created so far must be gone once the view and its iterators are released
+        import threading
+        for opname, mk in (('sort', lambda t, bs, c: etl.sort(t, 'k', buffersize=bs, cache=c, tempdir=tmpd)),
+                           ('distinct', lambda t, bs, c: etl.distinct(t, 'k', buffersize=bs, cache=c, tempdir=tmpd)),
+                           ('mergesort', lambda t, bs, c: etl.mergesort(t, [['k', 'v'], [0, 0]], key='k', buffersize=bs, cache=c, tempdir=tmpd))):
+            for n, bs in ((2, 1), (3, 2), (4, 2), (5, 3)):
+                for bad in range(n):
+                    for c in (True, False):
+                        t = [['k', 'v']] + [[n - i, threading.Lock() if i == bad else i] for i in range(n)]
+                        v = mk(t, bs, c)
+                        outcome = 'ok'
+                        for _pass in range(2):
+                            try:
+                                for _ in v:
+                                    pass
+                            except Exception as e:   # noqa
+                                outcome = type(e).__name__
+                        del v
+                        left = nfiles(tmpd, collect=True)
+                        ctx.case((opname, 'unpicklable', n, bs, bad, c))
+                        ctx.count('spill-fault:' + outcome)
+                        if left:
+                            ctx.spec_fail('%s|leak|spill-fault' % opname,
+                                          'a chunk file is left behind when writing a chunk fails (unpicklable cell)',
+                                          {'op': opname, 'nrows': n, 'buffersize': bs, 'bad_row': bad, 'cache': c, 'left': left})
+                            for f in os.listdir(tmpd):
+                                os.unlink(os.path.join(tmpd, f))
     finally:
         gc.collect()
         shutil.rmtree(tmpd, ignore_errors=True)
